@@ -40,6 +40,7 @@ package ripemd160
 
 //@ func (*digest).Write
 //@ props C14
+//@ reindex
 //@ requires dinv(d) && ref(p) != ref(d.x[:])
 //@ modifies d.x
 //@ modifies d.nx
